@@ -78,15 +78,14 @@ def run(ctx):
             V2, _, _ = discr_edges(h, r"pgcat::plugins::PluginOutput$", "Intercept", switches_cache=[sw])
             reach = h.reach([e[1] for e in V1 | V2], avoid_blocks=heads)
             r1.check(b_ not in reach, "sync-send@%s" % h.call_at(b_).name.split("::")[-1], "send in the Sync arm is unreachable from the Deny/Intercept arms", "a send in the Sync arm is reachable after a Deny/Intercept verdict")
-    # Deny/Intercept arms on the pending verdict clear the buffered batch
+    # Deny/Intercept arms on the pending verdict clear the buffered batch (helper methods are followed)
     for sw in pend_sw:
         d = sw.discr()
         for variant in ("Deny", "Intercept"):
             if variant not in d[2] or not _consumes(h, d[2][variant], plug_locals, heads):
                 continue
-            reach = h.reach([d[2][variant]], avoid_blocks=heads)
-            rs_ = [c for c in h.calls("pgcat::client::Client::reset_buffered_state") if c.block in reach]
-            r1.check(bool(rs_), "pending-%s-resets-buffers@%s" % (variant, "inner" if sw in inner_pend else "outer"), "pending %s clears the buffered batch" % variant, "pending %s does not clear the buffered batch (its messages would be sent with the next Sync)" % variant)
+            ev = _events(F, h, h.reach([d[2][variant]], avoid_blocks=heads))
+            r1.check("clear-batch" in ev, "pending-%s-resets-buffers@%s" % (variant, "inner" if sw in inner_pend else "outer"), "pending %s clears the buffered batch" % variant, "pending %s does not clear the buffered batch (its messages would be sent with the next Sync)" % variant)
 
     # ---------------- R2 pending verdict not overwritten
     r2 = ctx.rule("C19-R2", "a pending Deny/Intercept verdict is never overwritten by the verdict of a later Parse of the same batch", floor=2)
@@ -225,26 +224,44 @@ def run(ctx):
         for variant in ("Deny", "Intercept"):
             if variant not in d[2] or not _consumes(h, d[2][variant], plug_locals, heads):
                 continue
-            reach = h.reach([d[2][variant]], avoid_blocks=heads)
-            forget = []
-            for c in h.calls():
-                if c.block not in reach:
-                    continue
-                if c.name.startswith("pgcat::client::Client::") and c.name.split("::")[-1] not in ("reset_buffered_state",):
-                    cb = F.body(c.name)
-                    if cb and _removes_prepared(cb):
-                        forget.append(c)
-                if re.search(r"HashMap::.*(remove|retain|clear)$", c.name):
-                    flds = {p_ for a in c.args for o in origins(h, a) for p_ in o.proj if o.kind in ("place", "param")}
-                    if ".prepared_statements" in flds:
-                        forget.append(c)
-            rb = F.body("pgcat::client::Client::reset_buffered_state")
-            if rb and _removes_prepared(rb) and any(c.block in reach for c in h.calls("pgcat::client::Client::reset_buffered_state")):
-                forget.append("reset_buffered_state")
-            r6.check(bool(forget), "forget-on-%s@%s" % (variant, "inner" if sw in inner_pend else "outer"),
-                     "pending %s removes the batch's entries from the client's prepared-statement map" % variant,
-                     "a denied Parse stays registered in Client.prepared_statements: `Parse(s1, denied) Sync` then `Bind(s1) Execute Sync` makes ensure_prepared_statement_is_on_server send and run the denied statement",
+            ev = _events(F, h, h.reach([d[2][variant]], avoid_blocks=heads))
+            ok = "forget" in ev and ("clear-batch" not in ev or ev.index("forget") < ev.index("clear-batch"))
+            why = "a denied Parse stays registered in Client.prepared_statements" if "forget" not in ev else "the batch is cleared before its statements are forgotten (the forget step walks the already empty batch buffer)"
+            r6.check(ok, "forget-on-%s@%s" % (variant, "inner" if sw in inner_pend else "outer"),
+                     "pending %s removes the batch's entries from the client's prepared-statement map before clearing the batch" % variant,
+                     why + ": `Parse(s1, denied) Sync` then `Bind(s1) Execute Sync` makes ensure_prepared_statement_is_on_server send and run the denied statement",
                      "bb%d of handle" % sw.block)
+
+
+def _events(F, body, region, depth=3, _seen=None):
+    """ordered list of 'forget' / 'clear-batch' events in a region of `body`, following calls to
+    Client:: helper methods (their whole bodies) in RPO order"""
+    _seen = _seen or set()
+    order = sorted(region)  # block indices follow source order closely enough inside one arm; refine with RPO
+    try:
+        from c08 import rpo
+        idx = rpo(body)
+        order = sorted((b for b in region if b in idx), key=lambda b: idx[b])
+    except Exception:
+        pass
+    ev = []
+    for b in order:
+        c = body.call_at(b)
+        if c is None:
+            continue
+        if re.search(r"HashMap::.*(remove|retain|clear)$", c.name):
+            fl = {p_ for a in c.args[:1] for o in origins(body, a) for p_ in o.proj if o.kind in ("place", "param")}
+            if ".prepared_statements" in fl:
+                ev.append("forget")
+        elif re.search(r"VecDeque::.*clear$", c.name):
+            fl = {p_ for a in c.args[:1] for o in origins(body, a) for p_ in o.proj if o.kind in ("place", "param")}
+            if ".extended_protocol_data_buffer" in fl:
+                ev.append("clear-batch")
+        elif c.name.startswith("pgcat::client::Client::") and depth > 0 and c.name not in _seen:
+            cb = F.body(c.name)
+            if cb is not None and cb.kind != "coroutine":
+                ev.extend(_events(F, cb, cb.reach([0]), depth - 1, _seen | {c.name}))
+    return ev
 
 
 def _consumes(h, start, plug_locals, heads):
